@@ -18,6 +18,47 @@ structure Diff.WF (d : Diff) : Prop where
   noSys : ∀ a, isSystem a = true →
     a ∉ d.deployed.map (·.1) ∧ a ∉ d.replaced.map (·.1) ∧ a ∉ d.nonces.map (·.1)
 
+theorem nodupKeys_sound {β : Type} (l : List (Nat × β)) (h : nodupKeys l = true) : (l.map (·.1)).Nodup := by
+  induction l with
+  | nil => exact List.nodup_nil
+  | cons p r ih =>
+    simp only [nodupKeys, Bool.and_eq_true, Bool.not_eq_true'] at h
+    simp only [List.map_cons, List.nodup_cons]
+    refine ⟨?_, ih h.2⟩
+    intro hm
+    obtain ⟨q, hq, he⟩ := List.mem_map.mp hm
+    have : (r.any fun q => q.1 == p.1) = true := List.any_eq_true.mpr ⟨q, hq, by simp [he]⟩
+    rw [this] at h
+    exact absurd h.1 (by simp)
+
+/-- the executable check implies the hypothesis of the theorems -/
+theorem Diff.wfb_sound (d : Diff) (h : d.wfb = true) : d.WF := by
+  simp only [Diff.wfb, Bool.and_eq_true] at h
+  obtain ⟨⟨⟨⟨⟨⟨⟨⟨h1, h2⟩, h3⟩, h4⟩, h5⟩, h6⟩, h7⟩, h8⟩, h9⟩ := h
+  refine ⟨nodupKeys_sound _ h1, ?_, nodupKeys_sound _ h3, nodupKeys_sound _ h4, nodupKeys_sound _ h5, ?_, ?_⟩
+  · intro p hp
+    exact nodupKeys_sound _ (List.all_eq_true.mp h2 p hp)
+  · intro a ha hr
+    obtain ⟨p, hp, rfl⟩ := List.mem_map.mp ha
+    obtain ⟨q, hq, he⟩ := List.mem_map.mp hr
+    have := List.all_eq_true.mp h6 p hp
+    have hany : (d.replaced.any fun q => q.1 == p.1) = true := List.any_eq_true.mpr ⟨q, hq, by simp [he]⟩
+    simp [hany] at this
+  · intro a ha
+    refine ⟨?_, ?_, ?_⟩
+    · intro hm
+      obtain ⟨p, hp, rfl⟩ := List.mem_map.mp hm
+      have := List.all_eq_true.mp h7 p hp
+      simp [ha] at this
+    · intro hm
+      obtain ⟨p, hp, rfl⟩ := List.mem_map.mp hm
+      have := List.all_eq_true.mp h8 p hp
+      simp [ha] at this
+    · intro hm
+      obtain ⟨p, hp, rfl⟩ := List.mem_map.mp hm
+      have := List.all_eq_true.mp h9 p hp
+      simp [ha] at this
+
 /-- the value a diff assigns to a history key (`writeHistory`: deployed is written after
 replaced) -/
 def entryOf (d : Diff) : HKey → Option Val
@@ -123,10 +164,7 @@ theorem histOf_value (ch : List Diff) (hwf : ∀ d ∈ ch, d.WF) (key : HKey) (n
 /-- does the legacy `Update` write a log for this key? (`trie.Put` reports no old value when zero
 is written to an absent key; deployment writes no class-hash log) -/
 def logged (d : Diff) (prev : AbsSt) : HKey → Bool
-  | .storage a k =>
-    match d.storageAt a k with
-    | some v => v != 0 || prev.stor a k != 0
-    | none => false
+  | .storage a k => ocases (d.storageAt a k) false (fun v => v != 0 || prev.stor a k != 0)
   | .nonce a => (alook d.nonces a).isSome
   | .classHash a => (alook d.replaced a).isSome
 
@@ -202,11 +240,11 @@ theorem logsOf_value (ch : List Diff) (hwf : ∀ d ∈ ch, d.WF) (hdo : DepOnce 
           | storage a k =>
             simp only [logged] at hl
             simp only [entryOf]
-            cases hs : d.storageAt a k with
-            | none => rfl
-            | some v =>
-              simp only [hs, Bool.or_eq_true, bne_iff_ne, ne_eq, not_or, Decidable.not_not] at hl
-              simp [keyVal, hl.1, hl.2]
+            by_cases hs : d.storageAt a k = none
+            · simp [hs]
+            · obtain ⟨v, hv⟩ := Option.ne_none_iff_exists'.mp hs
+              simp only [hv, ocases_some, Bool.or_eq_true, bne_iff_ne, ne_eq, not_or, Decidable.not_not] at hl
+              simp [hv, keyVal, hl.1, hl.2]
           | nonce a =>
             simp only [logged, Bool.not_eq_true, Option.isSome_eq_false_iff, Option.isNone_iff_eq_none] at hl
             simp [entryOf, hl]
